@@ -25,6 +25,7 @@ var gens = map[string]func(props.Ctx) *report.Report{
 	"C10": props.C10,
 	"C11": props.C11,
 	"C14": props.C14,
+	"C16": props.C16,
 	"C19": props.C19,
 	"CALC": props.CalcAll,
 	"HIST": props.HistAll,
